@@ -72,8 +72,9 @@ def has_var(a):
 
 
 class Gen:
-    def __init__(self, rng, maxdepth, sigs=(), ret=None, globs=()):
+    def __init__(self, rng, maxdepth, sigs=(), ret=None, globs=(), bglobs=()):
         self.globs = list(globs)        # int globals: read and assigned like variables; may be shadowed once
+        self.bglobs = list(bglobs)      # bool globals, likewise
         self.shadowed = set()
         self.rng = rng
         self.maxdepth = maxdepth
@@ -140,11 +141,13 @@ class Gen:
             name = self.fresh('x')
             return ('decli', name, self.opd(ints)), ints + [name], bools
         r = self.rng.random()
-        if allow_decl and self.globs and r < 0.03:           # a local that shadows a global (once per function)
-            free = [g for g in self.globs if g not in self.shadowed]
+        if allow_decl and (self.globs or self.bglobs) and r < 0.03:   # a local that shadows a global (once per function)
+            free = [g for g in self.globs + self.bglobs if g not in self.shadowed]
             if free:
                 name = self.rng.choice(free)
                 self.shadowed.add(name)
+                if name in self.bglobs:
+                    return ('declb', name, self.bexp(ints, bools, 1)), ints, bools
                 return ('decli', name, self.opd(ints)), ints, bools
         if self.sigs and r < 0.14:
             return self.call(ints, bools, allow_decl)
@@ -214,7 +217,7 @@ class Gen:
         return out
 
     def body(self, params, maxlen=7):
-        ss = self.block(list(params) + self.globs, [], self.maxdepth, False, maxlen)
+        ss = self.block(list(params) + self.globs, list(self.bglobs), self.maxdepth, False, maxlen)
         if self.ret == 'int' and not (ss and ss[-1][0] == 'return'):
             ss.append(('return', self.opd(list(params), 1)))
         return ss
@@ -226,11 +229,13 @@ def gen_program(rng, maxdepth):
     sigs = [('f%d' % k, rng.choice(['int', 'int', 'empty']), rng.randint(0, 3)) for k in range(1, nf + 1)]
     globs = [('g%d' % k, rng.choice([0, 1, 5, -3, 100, 127])) for k in range(rng.choice([0, 0, 1, 2]))]
     gnames = [g for g, _ in globs]
+    bglobs = [('h%d' % k, rng.random() < 0.5) for k in range(rng.choice([0, 0, 1, 2]))]
+    bnames = [g for g, _ in bglobs]
     prog = [('is_you', 'empty', ['a0', 'a1', 'a2'],
-             Gen(rng, maxdepth, sigs, rng.choice([None, 'empty']), gnames).body(['a0', 'a1', 'a2']), globs)]
+             Gen(rng, maxdepth, sigs, rng.choice([None, 'empty']), gnames, bnames).body(['a0', 'a1', 'a2']), globs, bglobs)]
     for (name, rt, np) in sigs:
         params = ['p%d' % i for i in range(np)]
-        prog.append((name, rt, params, Gen(rng, max(1, maxdepth - 1), sigs, rt, gnames).body(params, 5)))
+        prog.append((name, rt, params, Gen(rng, max(1, maxdepth - 1), sigs, rt, gnames, bnames).body(params, 5)))
     return prog
 
 
@@ -325,6 +330,7 @@ def block_src(ss):
 
 def program_src(prog):
     out = ['int %s = %s;' % (g, v if v >= 0 else '(%d)' % v) for (g, v) in (prog[0][4] if len(prog[0]) > 4 else [])]
+    out += ['bool %s = %s;' % (g, 'true' if v else 'false') for (g, v) in (prog[0][5] if len(prog[0]) > 5 else [])]
     for (name, rt, params, ss) in [f[:4] for f in prog[1:] + prog[:1]]:   # helpers first, entry point last
         out.append('%s %s%s(%s) %s' % (rt, '@' if name == 'is_you' else '', name,
                                        ', '.join('int ' + q for q in params), block_src(ss)))
@@ -407,7 +413,7 @@ def convert_func(func, mods):
         sc.declare(str(prm.var.name), 'i')
 
     def gidx(name):
-        if name.startswith('g') and name[1:].isdigit():
+        if name[:1] in ('g', 'h') and name[1:].isdigit():
             return int(name[1:])
         raise Outside('variable ' + name)
 
@@ -416,7 +422,7 @@ def convert_func(func, mods):
         try:
             return sc.lookup(name)
         except Outside:
-            return ('g', gidx(name))
+            return (name[:1], gidx(name))      # 'g': an int global, 'h': a bool global
 
     def fidx(name):
         if name.startswith('f') and name[1:].isdigit():
@@ -447,7 +453,9 @@ def convert_func(func, mods):
         if T is A.BoolValue:
             return '(lit %d)' % (1 if x.data else 0)
         if T is A.VariableLookup:
-            k, j = sc.lookup(str(x.var.name))
+            k, j = var(str(x.var.name))
+            if k == 'h':
+                return '(bglob %d)' % j
             if k != 'b':
                 raise Outside('non-bool variable in bool expression')
             return '(bvar %d)' % j
@@ -531,6 +539,8 @@ def convert_func(func, mods):
                 if type(s.expr) in div_names:
                     return '(assdiv %d %s %s %s)' % (i, div_names[type(s.expr)], opd(s.expr.left), opd(s.expr.right))
                 return '(assi %d %s)' % (i, opd(s.expr))
+            if k == 'h':
+                return '(assbg %d %s)' % (i, bexp(s.expr))
             return '(assb %d %s)' % (i, bexp(s.expr))
         if isinstance(s, A.FuncCall):
             name = str(s.func)
@@ -628,7 +638,11 @@ def impl_run(src, w):
     for mm in _re.finditer(r'^int g(\d+) = \(?(-?\d+)\)?;', src, _re.M):
         gi[int(mm.group(1))] = int(mm.group(2))
     ginit = ' '.join(str(gi.get(k, 0)) for k in range(max(gi) + 1)) if gi else ''
-    return ('ok', body, None, 'prog %d %d (ginit %s) %s' % (w, STACK, ginit, sx), where)
+    bi = {}
+    for mm in _re.finditer(r'^bool h(\d+) = (true|false);', src, _re.M):
+        bi[int(mm.group(1))] = 1 if mm.group(2) == 'true' else 0
+    binit = ' '.join(str(bi.get(k, 0)) for k in range(max(bi) + 1)) if bi else ''
+    return ('ok', body, None, 'prog %d %d (ginit %s) (binit %s) %s' % (w, STACK, ginit, binit, sx), where)
 
 
 # ------------------------------------------------------------------------------------ model side
@@ -925,6 +939,7 @@ def run(tier, seed, workdir):
         progs.append(gen_program(rng, rng.choice([1, 2, 2, 3] if quick else [1, 2, 3, 3, 4])))
 
     dist = {'statements': collections.Counter(), 'nesting': collections.Counter(), 'word': collections.Counter(),
+            'globals': collections.Counter(),
             'status': collections.Counter(), 'lines_per_program': collections.Counter(), 'functions': collections.Counter()}
     jobs, failed = [], []
     for k, ss in enumerate(progs):
@@ -939,6 +954,14 @@ def run(tier, seed, workdir):
             if r[0] == 'ok':
                 jobs.append((k, w, r))
                 dist['word'][w] += 1
+                if w == words[0]:                                   # what the programs do with globals (model input)
+                    for key, pat in (('reads_int_global', '(glob '), ('assigns_int_global', '(assg '),
+                                     ('divides_into_int_global', '(assgdiv '), ('call_result_into_int_global', '(call assigng '),
+                                     ('reads_bool_global', '(bglob '), ('assigns_bool_global', '(assbg '),
+                                     ('writes_low_byte_of_int_global', '(write (byte (glob '),
+                                     ('negated_int_global_operand', '(un neg (glob ')):
+                        if pat in r[3]:
+                            dist['globals'][key] += 1
                 dist['lines_per_program'][min(len(r[1]) // 50 * 50, 500)] += 1
             else:
                 # every generated program is in F_stmt and well typed by construction: a rejection or a
